@@ -31,6 +31,7 @@ pub struct FnSpec {
     pub may_panic: BTreeSet<usize>,
     pub letsplit: Vec<String>,
     pub letsplit_named: Vec<(String, String)>, // (`METHOD#k`, NAME)
+    pub bindspine: Vec<String>,
     pub refop: Vec<String>,
     pub bindarg: Vec<(String, usize, usize, String)>, // (callee, K-th statement-level call, arg index, name)
     pub props: Vec<String>,
@@ -98,6 +99,7 @@ pub struct Unit {
     pub uses: Vec<String>,
     pub features: Vec<String>,
     pub method_map: Vec<(String, String)>,
+    pub iter_fns: Vec<String>,
     pub strlit: Option<String>, // R-STR: string literals in expression position become `<strlit>("lit")`
     pub items: Vec<Item>,
     pub trusted_allow: Vec<String>,
@@ -183,7 +185,7 @@ pub fn preprocess(text: &str, dir: &std::path::Path, depth: usize) -> Result<Str
                 match is_directive(l) {
                     Some(("unit", _)) | Some(("serves", _)) => continue,
                     Some(("prelude", a)) => { flush(&mut buf, &mut pending_fn, &mut out); out.push_str(&format!("@prelude {}\n", a)); }
-                    Some((d, _)) if matches!(d, "fn" | "lift" | "callorder" | "raw" | "spec" | "type" | "impl" | "endimpl" | "const" | "derive" | "use" | "feature" | "enum-eq" | "path-map" | "type-map" | "method-map" | "assume" | "not-under-contract" | "stub-eq" | "trusted-allow" | "strlit") => {
+                    Some((d, _)) if matches!(d, "fn" | "lift" | "callorder" | "raw" | "spec" | "type" | "impl" | "endimpl" | "const" | "derive" | "use" | "feature" | "enum-eq" | "path-map" | "type-map" | "method-map" | "iter-fn" | "assume" | "not-under-contract" | "stub-eq" | "trusted-allow" | "strlit") => {
                         flush(&mut buf, &mut pending_fn, &mut out);
                         pending_fn = matches!(d, "fn" | "lift" | "callorder");
                         buf.push(l.to_string());
@@ -249,6 +251,7 @@ pub fn parse(text: &str) -> Result<Unit, String> {
             "serves" => unit.serves = a.split_whitespace().map(String::from).collect(),
             "prelude" => { for p in a.split_whitespace() { if !unit.prelude.iter().any(|x| x == p) { unit.prelude.push(p.to_string()); } } }
             "enum-eq" => unit.enum_eq.extend(full_trim.split_whitespace().map(String::from)),
+            "iter-fn" => unit.iter_fns.extend(full_trim.split_whitespace().map(String::from)),
             "stub-eq" => unit.stub_eq.extend(full_trim.split_whitespace().map(String::from)),
             "type-map" => {
                 // `From => To`
@@ -417,6 +420,7 @@ pub fn parse(text: &str) -> Result<Unit, String> {
                             } else { f.letsplit.push(toks[i].to_string()); i += 1; }
                         }
                     }
+                    "bindspine" => f.bindspine.extend(a.split_whitespace().map(String::from)),
                     "bindarg" => {
                         // @bindarg CALLEE#K IDX NAME
                         let parts: Vec<&str> = a.split_whitespace().collect();
